@@ -44,6 +44,10 @@ for _s in ("andor", "cut", "not", "print", "lists", "alias"):
                                 invariants=SOLVER_INV, properties=SOLVER_PROPS, constraint="WithinBudget",
                                 timeout={"quick": 1200, "thorough": 3600})
 
+for _s in ("terms", "goals", "strings", "mutants"):
+    JOBS["syntax-" + _s] = dict(module="MC_Syntax", constants={"Slice": _s}, invariants=["Emit"], subst={"AtomCodes": "AtomCodesDef", "FmtPieces": "FmtPiecesDef"},
+                                timeout={"quick": 900, "thorough": 3600})
+
 UNIFY_ASSUME = [
     "pairs whose unification needs an occurs check are generated but excluded (counted under excluded_cases)",
     "the universe is bounded: terms of depth <= 2 over 2 atoms, 1 integer, 2 floats, 3 variables, $_, f/1 g/2 h/0, lists of <= 3 elements with and without tail",
@@ -70,6 +74,16 @@ PROPS = {
     "C11": dict(jobs=["solver-andor", "solver-alias", "solver-lists", "solver-print", "solver-not", "solver-cut"], level="model_checking",
                 rule="every program of the solver slices under two clause-wise renamings generated by the specification (pool 1 reuses the QUERY's variable names in every clause, all clauses sharing names; pool 2 swaps each clause's own names); AlphaInvariant is checked on the reference semantics and every variant is replayed",
                 assumptions=[]),
+    "C19": dict(jobs=["syntax-terms", "syntax-goals"], level="model_checking",
+                rule="every term of the canonical grammar to depth 2 (3 in thorough), every goal (simple goals, conjunctions, disjunctions of conjunctions, not) and rule of the goal universe: canonical text from the specification's printer must parse to the AST, print back unchanged and re-parse equal; the alternative documented surface forms (infix comparison / arithmetic, `q` for `q()`, `q.`) must parse to the same AST; the printer is checked injective by TLC",
+                assumptions=["only text that Display can express unambiguously is canonical: a conjunction containing a disjunction has no canonical text"]),
+    "C20": dict(jobs=["syntax-terms"], level="model_checking",
+                rule="every term text of the C19 universe plus signed numbers, punctuation and quoted atoms, embedded in 12 placement contexts (alone, complex argument first/last, built-in argument, list element first/last, infix operand left/right, comparison operand, query argument, rule head, rule body); the term recovered from each context is compared with the stand-alone parse",
+                assumptions=[]),
+    "C18": dict(jobs=["syntax-strings", "syntax-mutants", "syntax-terms", "syntax-goals"], level="exploration",
+                rule="all strings up to length 4 (5 in thorough) over a 24-symbol syntax alphabet, all single (thorough: sampled double) mutations of canonical goal / rule / term texts, and all canonical texts, through the 8 parser entry points; distinct = distinct input strings; non-trivial = every string (the oracle is 'returns')",
+                level_text="bounded-exhaustive exploration of the parser input space defined by the specification (alphabet, lengths, seed texts, mutation operators); the oracle is trivial (a value or an error, never a panic / hang), so this is exploration, not model checking of a behaviour",
+                assumptions=["the claim is exactly the enumerated space"]),
     "C06": dict(jobs=["unify-laws", "unify-plain", "unify-sess"], level="model_checking",
                 rule="every ordered pair of universe terms x every prior substitution (and every session of 2-3 unifications), enumerated by TLC; "
                      "non-trivial = the Unify machine takes at least one deref/bind/decompose/list step; distinct by (terms, prior)",
@@ -83,10 +97,10 @@ PROPS = {
     "C09": dict(jobs=["unify-plain", "unify-sess", "unify-laws"], level="model_checking",
                 rule="the cases of C06/C08 that contain $_ (argument, list element, list tail, nested); non-trivial as for C06",
                 assumptions=UNIFY_ASSUME),
-    "C14": dict(jobs=["bip-cmp"], level="model_checking",
+    "C14": dict(jobs=["bip-cmp", "syntax-goals"], level="model_checking",
                 rule="every comparison predicate x every ordered pair of operands (integers incl. -2^63 and 2^62, floats incl. -0.0 and fractions, ASCII/space/non-ASCII atoms, non-constants), literally and through variable chains; distinct by (predicate, operands, prior)",
                 assumptions=["integers compared with floats are only generated where the i64 -> f64 conversion is exact", "named forms here; infix forms are covered by the syntax slices (C19/C20)"]),
-    "C15": dict(jobs=["lists-mklist", "lists-rename", "bip-append", "bip-filter"], level="model_checking",
+    "C15": dict(jobs=["lists-mklist", "lists-rename", "bip-append", "bip-filter", "syntax-terms"], level="model_checking",
                 rule="constructor: every element sequence up to length 5 over atoms, numbers, variables, $_, complex terms, empty / nested / tailed lists x vbar, stepped through the make_linked_list machine of Lists.tla; "
                      "engine-built lists: every renamed term vector, append result and include/exclude result of the other slices, projected cell by cell with the well-formedness check",
                 assumptions=["a single-element sequence whose element is a list is outside the documented constructor contract", "parsed lists are checked by the syntax slices (C19)"]),
@@ -99,7 +113,7 @@ PROPS = {
     "C17": dict(jobs=["bip-count", "bip-filter", "bip-functor", "unify-fn"], level="model_checking",
                 rule="count / include / exclude / functor calls over the list, pattern and complex-term universes of MC_Builtins x priors, and join(...) function terms of the fn slice",
                 assumptions=["join is only claimed for atom / small-integer words"]),
-    "C12": dict(jobs=["unify-arith"], level="model_checking",
+    "C12": dict(jobs=["unify-arith", "syntax-goals"], level="model_checking",
                 rule="add/subtract/multiply/divide over every argument list of 1-3 numbers of the exact-number universe (and 4 over a smaller one), literal, through bound variables and variable chains, unified with a variable and with constants; excluded: lists whose fold is not exactly representable (overflow, integer division by zero, inexact float results)",
                 assumptions=["IEEE rounding of inexact float operations is not modelled: only argument lists whose every intermediate result is exactly representable are claimed",
                              "the infix forms + - * / are produced by the parser slices (C19/C20), which map them to these function terms"]),
